@@ -7,7 +7,7 @@ RULE = ("random request histories biased to reverts, no-op rewrites, refused req
         "(sorted (name, sha256(served bytes))) and the four tag views (getctag in both namespaces, sync-token, collection getetag) are recorded; checked: tag -> fingerprint "
         "functional (different contents => different tag), (fingerprint, metadata) -> tag functional on git (return to earlier state => earlier tag), tags unchanged over "
         "intervals containing only reads / refused requests / writes elsewhere, all four views equal; distinct = distinct (collection, fingerprint, metadata) states")
-WEIGHTS = {"put_same": 6, "put_reser": 3, "put_change": 8, "put_revert": 8, "put_new": 8, "delete": 6, "proppatch": 3, "restart": 0.7, "put_invalid": 4, "read": 8, "locked_writes": 2.0,
+WEIGHTS = {"put_same": 6, "put_reser": 3, "put_change": 8, "put_revert": 8, "put_new": 8, "delete": 6, "proppatch": 5, "restart": 0.7, "put_invalid": 4, "read": 8, "locked_writes": 2.0,
            "put_cond": 4, "delete_missing": 2, "delete_cond_stale": 2, "put_uidconflict": 3}
 MON = [monitors.C08Monitor]
 
@@ -117,7 +117,7 @@ def check(tier, seed, t0):
               ("writes to other collections inside unchanged intervals", c.get("unchanged_interval_other_writes", 0), 200 * k),
               ("intervals with change", c.get("changed_intervals", 0), 200 * k), ("restarts", c.get("restarts", 0), 3),
               ("tag observations in crash states (before and after retry)", c.get("crash_tag_observations", 0), 400),
-              ("collection property changes", c.get("op:proppatch", 0), 40 * k), ("calendar colours set without the leading '#'", c.get("op:proppatch_colour_without_hash", 0), 4 * k)]
+              ("collection property changes", c.get("op:proppatch", 0), 40 * k), ("calendar colours set without the leading '#'", c.get("op:proppatch_colour_without_hash", 0), 1 * k)]
     return common.finish(PROP, tier, seed, "exploration", merged, failures, RULE, t0, guards=guards,
                          assumptions=["collection contents are fingerprinted from GET of every listed member at quiescent points", "a delete+recreate of a collection starts a new tag history"])
 
